@@ -114,6 +114,10 @@ def bool_facts(t, pol):
         op, a, b = t[1], t[2], t[3]
         if not pol:
             op = _NEG[op]
+        if op in ("Lt", "Le") and b[0] == "call" and b[1] in ("Ord::min", "std::cmp::min", "usize::min") and len(b[2]) == 2:
+            return [cmp_fact(op, a, b[2][0]), cmp_fact(op, a, b[2][1])]      # x < min(p, q) is x < p && x < q
+        if op in ("Gt", "Ge") and a[0] == "call" and a[1] in ("Ord::min", "std::cmp::min", "usize::min") and len(a[2]) == 2:
+            return [cmp_fact(op, a[2][0], b), cmp_fact(op, a[2][1], b)]
         if op in ("Eq", "Ne") and a[0] == "discr" and b[0] == "discr":
             # derived PartialEq of a field-less enum compares discriminants: x == Variant is `x is Variant`
             for x, c in ((a, b), (b, a)):
